@@ -11,7 +11,7 @@ import proofs
 import minerals_trace as MT
 from common import hx
 
-FILES = ["gen/Gen_core.v", "Model_core.v", "Model_minerals.v", "Proofs_core.v", "Proofs_minerals.v",
+FILES = ["gen/Gen_core.v", "Model_core.v", "Model_minerals.v", "Proofs_core.v", "Proofs_minerals.v", "Proofs_flow.v",
          "Entry_core.v", "Extract_core.v"]
 PROP = "Properties/C01.v"
 
@@ -35,7 +35,7 @@ def run_history(rec, sc, assemblage=None, fractions=None, F0=None, collect=None)
     t = 0.0
     L0 = np.asarray(get_L(0.0, get_x(0.0)), dtype=float)
     s0 = float(np.abs(np.linalg.eigvalsh((L0 + L0.T) / 2)).max())
-    dt = (sc["strain"] / sc["nupd"]) / s0 if s0 > 0 else 1.0
+    dt = (sc["strain"] / sc["nupd"]) / s0 if s0 > 0 else (0.5 / (float(np.abs(L0).max()) or 1.0)) / sc["nupd"]
     out = dict(sc=sc, updates=[], fails=[], mineral=m, params=params, F_hist=[F.copy()], strain=0.0,
                desc=desc, get_L=get_L, get_x=get_x, dt=dt)
     frozen = [(o.tobytes(), f.tobytes()) for o, f in zip(m.orientations, m.fractions)]
